@@ -14,11 +14,36 @@ package gostatsd
 
 // ---- metric maps ----------------------------------------------------------------------------------
 // Well-formed nested maps: every outer key holds a non-nil inner map.
+// (and, for functions that update them, allocated and pairwise distinct: wfd*).
 //@ pred wfCounters(c Counters) := forall k string :: k in c ==> c[k] != nil
 //@ pred wfTimers(t Timers) := forall k string :: k in t ==> t[k] != nil
 //@ pred wfGauges(g Gauges) := forall k string :: k in g ==> g[k] != nil
 //@ pred wfSets(s Sets) := forall k string :: k in s ==> s[k] != nil
 //@ pred wfMM(mm *MetricMap) := mm != nil && wfCounters(mm.Counters) && wfTimers(mm.Timers) && wfGauges(mm.Gauges) && wfSets(mm.Sets)
+
+//@ pred wfdCounters(c Counters) := c != nil && allocated(c) && (forall k string :: k in c ==> c[k] != nil && allocated(c[k])) && (forall k1 string, k2 string :: k1 in c && k2 in c && k1 != k2 ==> c[k1] != c[k2])
+//@ pred wfdGauges(c Gauges) := c != nil && allocated(c) && (forall k string :: k in c ==> c[k] != nil && allocated(c[k])) && (forall k1 string, k2 string :: k1 in c && k2 in c && k1 != k2 ==> c[k1] != c[k2])
+//@ pred wfdTimers(c Timers) := c != nil && allocated(c) && (forall k string :: k in c ==> c[k] != nil && allocated(c[k])) && (forall k1 string, k2 string :: k1 in c && k2 in c && k1 != k2 ==> c[k1] != c[k2])
+//@ pred wfdSets(c Sets) := c != nil && allocated(c) && (forall k string :: k in c ==> c[k] != nil && allocated(c[k])) && (forall k1 string, k2 string :: k1 in c && k2 in c && k1 != k2 ==> c[k1] != c[k2])
+
+//@ pred hasC(mm *MetricMap, n string, t string) := n in mm.Counters && t in mm.Counters[n]
+//@ pred hasG(mm *MetricMap, n string, t string) := n in mm.Gauges && t in mm.Gauges[n]
+//@ pred hasT(mm *MetricMap, n string, t string) := n in mm.Timers && t in mm.Timers[n]
+//@ pred hasS(mm *MetricMap, n string, t string) := n in mm.Sets && t in mm.Sets[n]
+
+// Merging is a homomorphism on per-series summaries (C07): counters add (int64 arithmetic),
+// the newest timestamp is kept, an absent series is created from the incoming one, every
+// other series is untouched.
+//@ func (*MetricMap).MergeCounter
+//@   requires mm != nil && wfdCounters(mm.Counters)
+//@   ensures  wfdCounters(mm.Counters) && mm.Counters == old(mm.Counters)
+//@   ensures  hasC(mm, metricName, tagsKey)
+//@   ensures  old(hasC(mm, metricName, tagsKey)) ==> mm.Counters[metricName][tagsKey].Value == wrap64(old(mm.Counters[metricName][tagsKey].Value) + counterFrom.Value)
+//@   ensures  old(hasC(mm, metricName, tagsKey)) ==> mm.Counters[metricName][tagsKey].Timestamp == imax(old(mm.Counters[metricName][tagsKey].Timestamp), counterFrom.Timestamp)
+//@   ensures  old(hasC(mm, metricName, tagsKey)) ==> mm.Counters[metricName][tagsKey].Source == old(mm.Counters[metricName][tagsKey].Source) && mm.Counters[metricName][tagsKey].Tags == old(mm.Counters[metricName][tagsKey].Tags)
+//@   ensures  !old(hasC(mm, metricName, tagsKey)) ==> mm.Counters[metricName][tagsKey] == counterFrom
+//@   ensures  forall n string, t string :: (n != metricName || t != tagsKey) ==> hasC(mm, n, t) == old(hasC(mm, n, t)) && (hasC(mm, n, t) ==> mm.Counters[n][t] == old(mm.Counters[n][t]))
+//@   modifies mm.Counters[*], mm.Counters[metricName][*]
 
 // ---- percentiles -------------------------------------------------------------------------------------
 //@ func (*Percentiles).Set
@@ -26,3 +51,78 @@ package gostatsd
 //@   ensures  len(deref(p)) == old(len(deref(p))) + 1
 //@   ensures  base(deref(p)) == old(base(deref(p))) || fresh(base(deref(p)))
 //@   modifies deref(p), deref(p)[*]
+
+// gauges: the value of a datapoint carrying the newest timestamp wins
+//@ func (*MetricMap).MergeGauge
+//@   floats real
+//@   requires mm != nil && wfdGauges(mm.Gauges)
+//@   ensures  wfdGauges(mm.Gauges) && mm.Gauges == old(mm.Gauges)
+//@   ensures  hasG(mm, metricName, tagsKey)
+//@   ensures  old(hasG(mm, metricName, tagsKey)) ==> mm.Gauges[metricName][tagsKey].Timestamp == imax(old(mm.Gauges[metricName][tagsKey].Timestamp), gaugeFrom.Timestamp)
+//@   ensures  old(hasG(mm, metricName, tagsKey)) ==> mm.Gauges[metricName][tagsKey].Value == ite(old(mm.Gauges[metricName][tagsKey].Timestamp) < gaugeFrom.Timestamp, gaugeFrom.Value, old(mm.Gauges[metricName][tagsKey].Value))
+//@   ensures  old(hasG(mm, metricName, tagsKey)) ==> mm.Gauges[metricName][tagsKey].Source == old(mm.Gauges[metricName][tagsKey].Source) && mm.Gauges[metricName][tagsKey].Tags == old(mm.Gauges[metricName][tagsKey].Tags)
+//@   ensures  !old(hasG(mm, metricName, tagsKey)) ==> mm.Gauges[metricName][tagsKey] == gaugeFrom
+//@   ensures  forall n string, t string :: (n != metricName || t != tagsKey) ==> hasG(mm, n, t) == old(hasG(mm, n, t)) && (hasG(mm, n, t) ==> mm.Gauges[n][t] == old(mm.Gauges[n][t]))
+//@   modifies mm.Gauges[*], mm.Gauges[metricName][*]
+
+// timers: values are concatenated (multiset union up to order), sampled counts add
+//@ func (*MetricMap).MergeTimer
+//@   floats real
+//@   requires mm != nil && wfdTimers(mm.Timers)
+//@   ensures  wfdTimers(mm.Timers) && mm.Timers == old(mm.Timers)
+//@   ensures  hasT(mm, metricName, tagsKey)
+//@   ensures  old(hasT(mm, metricName, tagsKey)) ==> mm.Timers[metricName][tagsKey].Timestamp == imax(old(mm.Timers[metricName][tagsKey].Timestamp), timerFrom.Timestamp)
+//@   ensures  old(hasT(mm, metricName, tagsKey)) ==> mm.Timers[metricName][tagsKey].SampledCount == old(mm.Timers[metricName][tagsKey].SampledCount) + timerFrom.SampledCount
+//@   ensures  old(hasT(mm, metricName, tagsKey)) ==> len(mm.Timers[metricName][tagsKey].Values) == old(len(mm.Timers[metricName][tagsKey].Values)) + len(timerFrom.Values)
+//@   ensures  old(hasT(mm, metricName, tagsKey)) ==> forall i int :: 0 <= i && i < old(len(mm.Timers[metricName][tagsKey].Values)) ==> mm.Timers[metricName][tagsKey].Values[i] == old(mm.Timers[metricName][tagsKey].Values[i])
+//@   ensures  old(hasT(mm, metricName, tagsKey)) ==> forall j int :: 0 <= j && j < len(timerFrom.Values) ==> mm.Timers[metricName][tagsKey].Values[old(len(mm.Timers[metricName][tagsKey].Values)) + j] == old(timerFrom.Values[j])
+//@   ensures  old(hasT(mm, metricName, tagsKey)) ==> mm.Timers[metricName][tagsKey].Source == old(mm.Timers[metricName][tagsKey].Source) && mm.Timers[metricName][tagsKey].Tags == old(mm.Timers[metricName][tagsKey].Tags)
+//@   ensures  !old(hasT(mm, metricName, tagsKey)) ==> mm.Timers[metricName][tagsKey] == timerFrom
+//@   ensures  forall n string, t string :: (n != metricName || t != tagsKey) ==> hasT(mm, n, t) == old(hasT(mm, n, t)) && (hasT(mm, n, t) ==> mm.Timers[n][t] == old(mm.Timers[n][t]))
+//@   modifies mm.Timers[*], mm.Timers[metricName][*], allElems(float64)
+
+// sets unite; a set in a map always has an allocated member map
+//@ pred setsOK(mm *MetricMap) := forall n string, t string :: hasS(mm, n, t) ==> mm.Sets[n][t].Values != nil
+//@ func (*MetricMap).MergeSet
+//@   requires mm != nil && wfdSets(mm.Sets) && setsOK(mm) && setFrom.Values != nil
+//@   ensures  wfdSets(mm.Sets) && mm.Sets == old(mm.Sets)
+//@   ensures  hasS(mm, metricName, tagsKey)
+//@   ensures  old(hasS(mm, metricName, tagsKey)) ==> mm.Sets[metricName][tagsKey].Timestamp == imax(old(mm.Sets[metricName][tagsKey].Timestamp), setFrom.Timestamp)
+//@   ensures  old(hasS(mm, metricName, tagsKey)) ==> mm.Sets[metricName][tagsKey].Values == old(mm.Sets[metricName][tagsKey].Values)
+//@   ensures  old(hasS(mm, metricName, tagsKey)) ==> forall x string :: (x in mm.Sets[metricName][tagsKey].Values) == (old(x in mm.Sets[metricName][tagsKey].Values) || old(x in setFrom.Values))
+//@   ensures  !old(hasS(mm, metricName, tagsKey)) ==> mm.Sets[metricName][tagsKey] == setFrom
+//@   ensures  forall n string, t string :: (n != metricName || t != tagsKey) ==> hasS(mm, n, t) == old(hasS(mm, n, t)) && (hasS(mm, n, t) ==> mm.Sets[n][t] == old(mm.Sets[n][t]))
+//@   loop 1 invariant forall x string :: (x in setInto.Values) == (old(x in mm.Sets[metricName][tagsKey].Values) || (visited(1)[x] && old(x in setFrom.Values)))
+//@   loop 1 invariant setFrom.Values == setInto.Values || (forall x string :: (x in setFrom.Values) == old(x in setFrom.Values))
+//@   modifies mm.Sets[*], mm.Sets[metricName][*], mm.Sets[metricName][tagsKey].Values[*]
+
+// ---- receiving single datapoints ---------------------------------------------------------------------
+// tagsCopied(t, src): t is a private copy of src (same strings in the same order, storage not shared)
+//@ pred tagsCopied(t Tags, src Tags) := len(t) == len(src) && (forall i int :: 0 <= i && i < len(src) ==> t[i] == src[i]) && (base(t) == 0 || base(t) != base(src))
+
+//@ func (*MetricMap).receiveCounter
+//@   floats real
+//@   requires mm != nil && m != nil && wfdCounters(mm.Counters)
+//@   ensures  wfdCounters(mm.Counters) && mm.Counters == old(mm.Counters)
+//@   ensures  hasC(mm, m.Name, tagsKey)
+//@   ensures  old(hasC(mm, m.Name, tagsKey)) && m.Rate > 0.0 && -9223372036854775808.0 < m.Value / m.Rate && m.Value / m.Rate < 9223372036854775808.0 ==> mm.Counters[m.Name][tagsKey].Value == wrap64(old(mm.Counters[m.Name][tagsKey].Value) + truncf(m.Value / m.Rate))
+//@   ensures  old(hasC(mm, m.Name, tagsKey)) ==> mm.Counters[m.Name][tagsKey].Timestamp == imax(old(mm.Counters[m.Name][tagsKey].Timestamp), m.Timestamp)
+//@   ensures  old(hasC(mm, m.Name, tagsKey)) ==> mm.Counters[m.Name][tagsKey].Source == old(mm.Counters[m.Name][tagsKey].Source) && mm.Counters[m.Name][tagsKey].Tags == old(mm.Counters[m.Name][tagsKey].Tags)
+//@   ensures  !old(hasC(mm, m.Name, tagsKey)) && m.Rate > 0.0 && -9223372036854775808.0 < m.Value / m.Rate && m.Value / m.Rate < 9223372036854775808.0 ==> mm.Counters[m.Name][tagsKey].Value == truncf(m.Value / m.Rate)
+//@   ensures  !old(hasC(mm, m.Name, tagsKey)) ==> mm.Counters[m.Name][tagsKey].Timestamp == m.Timestamp && mm.Counters[m.Name][tagsKey].Source == m.Source && tagsCopied(mm.Counters[m.Name][tagsKey].Tags, m.Tags)
+//@   ensures  forall n string, t string :: (n != m.Name || t != tagsKey) ==> hasC(mm, n, t) == old(hasC(mm, n, t)) && (hasC(mm, n, t) ==> mm.Counters[n][t] == old(mm.Counters[n][t]))
+//@   modifies mm.Counters[*], mm.Counters[m.Name][*]
+
+// When several datapoints set the same gauge, one that is at least as new as the stored one
+// replaces it (C05: within a datagram all lines carry the same receive time, the last wins).
+//@ func (*MetricMap).receiveGauge
+//@   floats real
+//@   requires mm != nil && m != nil && wfdGauges(mm.Gauges)
+//@   ensures  wfdGauges(mm.Gauges) && mm.Gauges == old(mm.Gauges)
+//@   ensures  hasG(mm, m.Name, tagsKey)
+//@   ensures  [tie] old(hasG(mm, m.Name, tagsKey)) && m.Timestamp >= old(mm.Gauges[m.Name][tagsKey].Timestamp) ==> mm.Gauges[m.Name][tagsKey].Value == m.Value && mm.Gauges[m.Name][tagsKey].Timestamp == m.Timestamp
+//@   ensures  old(hasG(mm, m.Name, tagsKey)) && m.Timestamp < old(mm.Gauges[m.Name][tagsKey].Timestamp) ==> mm.Gauges[m.Name][tagsKey] == old(mm.Gauges[m.Name][tagsKey])
+//@   ensures  old(hasG(mm, m.Name, tagsKey)) ==> mm.Gauges[m.Name][tagsKey].Source == old(mm.Gauges[m.Name][tagsKey].Source) && mm.Gauges[m.Name][tagsKey].Tags == old(mm.Gauges[m.Name][tagsKey].Tags)
+//@   ensures  !old(hasG(mm, m.Name, tagsKey)) ==> mm.Gauges[m.Name][tagsKey].Value == m.Value && mm.Gauges[m.Name][tagsKey].Timestamp == m.Timestamp && mm.Gauges[m.Name][tagsKey].Source == m.Source && tagsCopied(mm.Gauges[m.Name][tagsKey].Tags, m.Tags)
+//@   ensures  forall n string, t string :: (n != m.Name || t != tagsKey) ==> hasG(mm, n, t) == old(hasG(mm, n, t)) && (hasG(mm, n, t) ==> mm.Gauges[n][t] == old(mm.Gauges[n][t]))
+//@   modifies mm.Gauges[*], mm.Gauges[m.Name][*]
